@@ -608,22 +608,23 @@ def _run_movie(case, ctx):
                      lambda: calc_rdm_movie(tds, descriptor=desc, time_descriptor='time', bins=bins, **kw))
     judged = 0
     if ok:
-        form = cls + (',single-time-point' if len(models) == 1 else '')
+        # structural findings are classed by the number of (binned) time points only
+        form = 'single-time-point' if len(models) == 1 else 'multiple-time-points'
         # which (binned) time point does RDM r claim to be
         r_to_model = None
         tvals = rdms.rdm_descriptors.get('time')
         if rdms.n_rdm != len(models):
-            ctx.fail('calc_rdm_movie|%s|n-rdm' % cls, case, '%d RDMs for %d (binned) time points' % (
+            ctx.fail('calc_rdm_movie|%s|n-rdm' % form, case, '%d RDMs for %d (binned) time points' % (
                 rdms.n_rdm, len(models)))
         elif tvals is None:
-            ctx.fail('calc_rdm_movie|%s|rdm-time-label' % cls, case, 'no rdm descriptor for the time points')
+            ctx.fail('calc_rdm_movie|%s|rdm-time-label' % form, case, 'no rdm descriptor for the time points')
         else:
             r_to_model = []
             for r in range(rdms.n_rdm):
                 hit = [i for i, m in enumerate(models) if close(tvals[r], m['time'], 1e-9)]
                 r_to_model.append(hit[0] if len(hit) == 1 else None)
             if None in r_to_model or sorted(r_to_model) != list(range(len(models))):
-                ctx.fail('calc_rdm_movie|%s|rdm-time-label' % cls, case,
+                ctx.fail('calc_rdm_movie|%s|rdm-time-label' % form, case,
                          'time labels %r of the RDMs are not the (binned) time points %r' % (
                              list(tvals), [m['time'] for m in models]))
                 r_to_model = None
